@@ -59,7 +59,9 @@ Expected(e) ==
       [] e.op = "quat_normalized" -> VScale(e.p, FInv(e.len))
       [] e.op = "quat_magnitude" -> FOfQ(e.lenq)
       [] e.op = "ctor" -> StepMat(e.n, e.st)
-      [] e.op = "chain" -> [i \in 1 .. Len(e.steps) |-> ChainMat(e.n, e.steps, i)]
+      \* by induction over the recorded matrices: the matrix after call i is Step_i times the matrix after call i-1
+      \* (equal to ChainMat(e.n, e.steps, i); written this way because TLC re-evaluates nested recursive products)
+      [] e.op = "chain" -> [i \in 1 .. Len(e.steps) |-> MatMul(StepMat(e.n, e.steps[i]), IF i = 1 THEN Idn(e.n) ELSE e.obs[i - 1])]
       [] e.op = "mul_point" -> XYZ(MatVec(e.a, Point4(e.v)))
       [] e.op = "mul_dir" -> XYZ(MatVec(e.a, Dir4(e.v)))
       [] e.op = "mul_point_2d" -> XY(MatVec(e.a, Point3(e.v)))
